@@ -78,6 +78,7 @@ int main(int argc, char **argv)
 	    if (has(viol, "Atype")) A2.Stype = SLU_DN;
 	    if (has(viol, "Adtype")) A2.Dtype = (SLU_DT == SLU_D) ? SLU_S : SLU_D;
 	    if (has(viol, "Aneg")) A2.nrow = -1;
+	    if (has(viol, "nrhs0")) { B2.ncol = 0; X2.ncol = 0; }     /* legal: no right-hand sides */
 	    if (has(viol, "Bncol")) B2.ncol = -1;
 	    if (has(viol, "Bldb")) Bs.lda = N - 1;
 	    if (has(viol, "Btype")) B2.Stype = SLU_NC;
